@@ -85,7 +85,9 @@ PINNED = ["one/tag-~X~/mk-tuple-2~E/ident", "mk-dict-2/setkey-z-~X~/mk-pairs-3~E
           # a variable JSON cannot write at all: such results are simply not kept by serialising caches
           "one/tag-~X~/mk-set-2~E/ident", "one/tag-~X~/mk-bytes-2~E/cat-x",
           # lists holding tuples / non-JSON members (lists are filed by the default, pickling, state type)
-          "mk-pairs-2/ident", "mk-list-1/push-~X~/mk-set-1~E/ident"]
+          "mk-pairs-2/ident", "mk-list-1/push-~X~/mk-set-1~E/ident",
+          # a dictionary JSON cannot write at all (it holds a set): not kept, never served as something else
+          "mk-dict-1/setkey-s-~X~/mk-set-2~E/ident"]
 
 
 def gen_history(rnd, g, kind="", pinned=None):
